@@ -160,7 +160,7 @@ func c25One(c *fw.Ctx, cs c25Case) {
 				n, d := clientGoroutines()
 				a := px.NumAttempts()
 				lastN, lastDump = n-base, d
-				if n > base || a != at || cl.State() != opcua.Closed {
+				if n > base || a != at || cl.State() != opcua.Closed || px.Live() > 0 {
 					stableSince, at = fw.Heartbeats(), a
 				} else if fw.Heartbeats()-stableSince > 300 {
 					close(quiet)
@@ -186,6 +186,9 @@ func c25One(c *fw.Ctx, cs c25Case) {
 			case cl.State() != opcua.Closed:
 				cs.Detail = fmt.Sprintf("6000 heartbeats after Close returned State() is %v (reported states %v)", cl.State(), cs.States)
 				c.Violation("c25:not-closed-after-close:"+when, cs.Detail, cs)
+			case lastN <= 0 && px.Live() > 0:
+				cs.Detail = fmt.Sprintf("6000 heartbeats after Close returned %d connection(s) of the client are still open at the proxy", px.Live())
+				c.Violation("c25:connections-left-after-close:"+when, cs.Detail, cs)
 			case lastN > 0:
 				cs.Detail = fmt.Sprintf("6000 heartbeats after Close returned %d client goroutine(s) are still running:\n%s", lastN, tailStr(lastDump, 6000))
 				c.Violation("c25:goroutines-left-after-close:"+fw.TopRepoFrame(lastDump), cs.Detail, cs)
@@ -283,6 +286,14 @@ func c25One(c *fw.Ctx, cs c25Case) {
 			}
 			px.SetUpstream(a)
 			px.DropAll(false)
+		case strings.HasPrefix(f, "hole-reconnect:"):
+			// the next connection forwards n bytes and then goes silent without being closed (a hung peer): the
+			// attempt times out, a later one succeeds
+			var n int64
+			fmt.Sscanf(f, "hole-reconnect:%d", &n)
+			px.HoleNextAfter(n)
+			px.DropAll(false)
+			time.Sleep(time.Duration(900+r.Intn(600)) * time.Millisecond)
 		case strings.HasPrefix(f, "cut-reconnect:"):
 			var n int64
 			fmt.Sscanf(f, "cut-reconnect:%d", &n)
@@ -370,8 +381,11 @@ func c25One(c *fw.Ctx, cs c25Case) {
 }
 
 func c25Run(c *fw.Ctx) error {
-	n := int64(c.Pick(64, 3000))
-	kinds := []string{"drop-fin", "drop-rst", "outage:%d", "restart", "cut-reconnect:%d", "connect-cut:%d"}
+	n := int64(c.Pick(112, 3000))
+	kinds := []string{"drop-fin", "drop-rst", "outage:%d", "restart", "cut-reconnect:%d", "connect-cut:%d", "hole-reconnect:%d"}
+	// byte positions inside the (re)connect sequence: HEL/ACK, OpenSecureChannel, CreateSession or ActivateSession,
+	// the namespace read, later traffic
+	windows := [][2]int{{1, 90}, {90, 360}, {360, 660}, {660, 950}, {950, 1500}}
 	for i := int64(0); i < n; i++ {
 		if int(i%int64(c.NBatch)) != c.Batch || i < c.Resume {
 			continue
@@ -390,7 +404,8 @@ func c25Run(c *fw.Ctx) error {
 				kind = fmt.Sprintf(kind, 30+r.Intn(400))
 			case strings.Contains(kind, "%d"):
 				// HEL 60, ACK 28, OPN ~130 each way, CreateSession ~400, ...: cuts inside each step of the connect
-				kind = fmt.Sprintf(kind, 1+r.Intn(1500))
+				w := windows[r.Intn(len(windows))]
+				kind = fmt.Sprintf(kind, w[0]+r.Intn(w[1]-w[0]))
 			}
 			cs.Faults = append(cs.Faults, kind)
 		}
@@ -411,8 +426,8 @@ func c25Run(c *fw.Ctx) error {
 func init() {
 	fw.Register("C25", fw.Spec{
 		Plan: func(tier string) fw.Plan {
-			p := fw.Plan{Batches: 8, TimeoutS: 1500, MinNontrivial: 56, Level: "exploration",
-				Rule:        "the real client through a fault proxy to the real server in a child process; 1-4 faults per history: connections closed (FIN) or reset, outages of 30-430 ms during which connects are refused, server restarts on a new process (all sessions lost), the next (re)connection cut after 1-1500 forwarded bytes (inside HEL/ACK, OPN, CreateSession, ActivateSession, namespace read), the same cut on the first connect; 3 of 4 histories with auto-reconnect; Close in steady state, during an outage, 0-30 ms after the last fault, or (forced race, hook cl.dial.opened) while a reconnect attempt has opened its secure channel but not stored it yet; oracle: every reported transition is in the documented set, with auto-reconnect the client is Connected with a working Read within 20000 heartbeats of the last fault, Close returns, afterwards State() and every later report are Closed, the last report is Closed, the proxy sees no further connection attempt and no goroutine executing client code is left (300 quiet heartbeats in a row within 6000); distinct = fault histories",
+			p := fw.Plan{Batches: 8, TimeoutS: 1500, MinNontrivial: 100, Level: "exploration",
+				Rule:        "the real client through a fault proxy to the real server in a child process; 1-4 faults per history: connections closed (FIN) or reset, outages of 30-430 ms during which connects are refused, server restarts on a new process (all sessions lost), the next (re)connection cut after 1-1500 forwarded bytes (inside HEL/ACK, OPN, CreateSession, ActivateSession, namespace read, chosen per window) or going silent at that point without being closed, the same cut on the first connect; 3 of 4 histories with auto-reconnect; Close in steady state, during an outage, 0-30 ms after the last fault, or (forced race, hook cl.dial.opened) while a reconnect attempt has opened its secure channel but not stored it yet; oracle: every reported transition is in the documented set, with auto-reconnect the client is Connected with a working Read within 20000 heartbeats of the last fault, Close returns, afterwards State() and every later report are Closed, the last report is Closed, the proxy sees no further connection attempt, holds no open connection of the client, and no goroutine executing client code is left (300 quiet heartbeats in a row within 6000); distinct = fault histories",
 				Assumptions: []string{"documented lifecycle read from connstate.go: Closed -> Connecting -> Connected -> Disconnected -> Reconnecting -> Connected, Closed from anywhere, repeated reports of a state allowed; the state after a failed first Connect is recorded, not judged"}}
 			if tier == "thorough" {
 				p.Batches, p.TimeoutS, p.MinNontrivial = 16, 3400, 2500
